@@ -140,6 +140,19 @@ def compose_and_check(it, fn, a):
                     problems.append("inv: INCTRAN present although not asked")
                 if body.incoo != rq.incoo or body.incbal != rq.incbal or body.incpos.include != rq.incpos or not same_instant(body.incpos.dtasof, rq.dtasof):
                     problems.append(f"inv: flags incoo={body.incoo} incbal={body.incbal} incpos={body.incpos.include} asked {rq.incoo} {rq.incbal} {rq.incpos}")
+    # the account-information request of the same client: asked with the caller's date - the same instant, whatever its zone
+    for d in [x for x in DATES if x is not None][seed % 3::3]:
+        try:
+            raw = client.request_accounts(password, d, dryrun=True).read()
+            t2 = OFXTree(); t2.parse(io.BytesIO(raw)); o2 = t2.convert()
+            got = o2.signupmsgsrqv1[0].acctinforq.dtacctup
+            if not same_instant(got, d):
+                problems.append(f"account-information request asked with {d.isoformat()} goes out with DTACCTUP {got.isoformat()}")
+            s2 = o2.signonmsgsrqv1.sonrq
+            if s2.userid != kw["userid"] or s2.userpass != password:
+                problems.append("account-information request: credentials")
+        except Exception as ex:
+            problems.append(f"account-information request with {d!r}: {type(ex).__name__}: {ex}")
     pairs = list(zip(kinds, reqs))
     # closing-statement wrappers come before statement wrappers within a message set (request order within each kind)
     check_set("bankmsgsrqv1", [p for p in pairs if p[0] == "stmtend"] + [p for p in pairs if p[0] == "stmt"])
